@@ -1990,6 +1990,7 @@ impl Parser {
         let children = input.children();
 
         let mut type_vec: Vec<Cow<'static, TypeLayout>> = vec![];
+        let mut is_open = false;
 
         for child in children {
             match child.as_rule() {
@@ -1997,8 +1998,17 @@ impl Parser {
                     let ty = Self::r#type(child)?;
                     type_vec.push(ty);
                 }
+                Rule::open_ended_marker => is_open = true,
                 other_rule => bail!("{other_rule:?} is not supported inside a fixed-shape list type"),
             }
+        }
+
+        if is_open {
+            if type_vec.len() != 1 {
+                bail!("`...` is only supported in a list type with a single element type");
+            }
+
+            return Ok(ListType::Open(Box::new(type_vec.remove(0))));
         }
 
         Ok(ListType::Mixed(type_vec))
